@@ -298,9 +298,14 @@ def check_find_stab(ctx: Ctx, g, label: dict, rng, state: dict, expect_zero: boo
             if kind == "magic" and tr.o_u3(kg) != 0:
                 ctx.violation("oracle-u3-reappears", f"ORACLE hypothesis fails: an arbitrary-angle phase appears in the magic-state pass ({label.get('what')}, circuit {label.get('key')})", lab)
                 return False
-    # top-level reduce preserves the value
-    if work_id in tr.pre_reduce and reps:
-        pass
+    # the top-level full_reduce of find_stab preserves the value (the input object is reduced in place)
+    if work_id in tr.pre_reduce:
+        a, b = values(tr.pre_reduce[work_id], sub), values(work, sub)
+        ctx.count(("oracle-root", label.get("key"), label.get("what")), bucket="oracle-full-reduce-root", n=len(sub))
+        if not close(a, b):
+            ctx.violation("oracle-full-reduce", f"ORACLE hypothesis fails: full_reduce changed the value of the input diagram ({a[0]:.9g} -> {b[0]:.9g}; {label.get('what')}, circuit {label.get('key')})",
+                          dict(label, oracle="full_reduce", node=work_id))
+            return False
     # ---- keep the trace for the comparison with the Coq model
     if len(tr.ids) <= 160 and len(state["traces"]) < state["trace_cap"] and (reps or len(state["traces"]) < 4):
         state["traces"].append(dict(label=label, events=tr.events, root=work_id, result=[tr.gid(x) for x in res]))
